@@ -19,7 +19,12 @@ const KEYWORDS: [&str; 30] = [
 /// standard constants appended to every program so that replacements can refer to them
 const EXTRA_CONSTS: &str = "    let SA = [1, 2, 3]\n    let SS = \"txt\"\n    let SB = true\n    let SN = [[1, 2], [3]]\n    let SG = Graph {\n        P -> [Q: 2],\n        Q\n    }\n    let SF = 2.5\n    let SK = 1\n";
 
-const REPLACEMENTS: [(&str, &str); 49] = [
+const REPLACEMENTS: [(&str, &str); 53] = [
+    // (SM and SE exist in the mixed stratum only; elsewhere these are undeclared names)
+    ("SM[1][1]", "element-of-a-later-mixed-row"),
+    ("SM[1][0]", "number-of-a-later-mixed-row"),
+    ("SM[0][1]", "element-of-the-homogeneous-first-row-of-a-mixed-table"),
+    ("len(SE[1])", "length-of-an-empty-row"),
     // blocks: values of the model, not of the compile-time data
     ("max { 2, 3 }", "block-of-constants"),
     ("abs { 2 }", "abs-block-of-constant"),
@@ -386,7 +391,12 @@ impl Driver for C19 {
                 }
             }
             let _ = prog.consts.iter().any(|(_, v)| is_mixed(v));
-            let base = with_escaped_literal(&with_extra_consts(&prog.text_p()));
+            let mut base = with_escaped_literal(&with_extra_consts(&prog.text_p()));
+            if keep_mixed {
+                // tables whose first row is homogeneous while a later row mixes kinds (the whole table is typed
+                // element-wise, whatever the first row looks like)
+                base = base.replacen("    let SK = 1\n", "    let SK = 1\n    let SM = [[1, 2], [3, \"a\"]]\n    let SE = [[1, 2], []]\n", 1);
+            }
             // two cases per unit come from hand-written destructuring programs in which a component is
             // used as a value of another kind (the name after a discarded `_` must keep its own kind)
             let (text, label, pos) = if case >= 58 {
@@ -455,7 +465,12 @@ impl Driver for C19 {
                             || kind.starts_with("WrongArgument(expected=PositiveInteger,got=Number)")
                         {
                             "fractional-number-where-integer-required".to_string()
-                        } else if mixed {
+                        } else if mixed && (kind.starts_with("WrongArgument(expected=Number,") || kind.starts_with("BinOpError(") || kind.starts_with("UnOpError(")) {
+                            // the recorded finding: an element typed Any passes the static check of a numeric position or
+                            // of an operator and fails there at run time; positions that demand an integer, an array, a
+                            // string ... reject Any statically, so any other kind of failure is reported as itself, also
+                            // in a program that holds such an array
+                            out.tag(&format!("deferred-kind:{kind}"));
                             "type-error-deferred-to-runtime(array literal that is empty or mixes element / row kinds: elements typed Any)".to_string()
                         } else {
                             format!("accepted-then-{kind}")
